@@ -21,6 +21,7 @@ import Props.C18
 import Proofs.SrcBlind
 import Proofs.Compose
 import Proofs.Peaks
+import Proofs.SeededTotal
 import Proofs.SecondPass
 import Proofs.Total
 namespace Coma.Props
@@ -145,6 +146,19 @@ theorem C07_refine_total (c : SecCfg) (ref q : OMap) (rev : Bool) (peak : Int) (
 theorem C07_refine_error_kind (c : SecCfg) (ref q : OMap) (rev : Bool) (peak : Int) (e : Err) (hres : 1 ≤ c.res) (hb : 0 ≤ c.blur)
     (hq : q.positions ≠ []) (hr : ref.positions ≠ []) (h : refine c ref q rev peak = .error e) : e = .indexError :=
   Coma.Proofs.refine_error_kind c ref q rev peak e hres hb hq hr h
+
+/-- WHOLE RUN WITH THE SECONDARY STAGE INSIDE THE MODEL: if every selected primary peak names a reference of the run
+    and its refinement window reaches a label of that reference (`PTableOK`; true of every peak the primary stage
+    can select, which lies at an interior lag of the primary correlation), then deriving the seed table — vectorise,
+    blur, correlate, find_peaks, top ten, for every molecule and fragment — succeeds, and the alignment logic then
+    runs to completion in EVERY output mode -/
+theorem C07_seeded_run_total (cfg : Cfg) (c : SecCfg) (mode : Mode) (hP : GoodParams cfg.P) (refs qs : List OMap) (pt : PTable) (it : Int)
+    (hres : 1 ≤ c.res) (hb : 0 ≤ c.blur)
+    (hrefs : ∀ r ∈ refs, StrictAscending r.positions) (hqs : ∀ q ∈ qs, StrictAscending q.positions ∧ q.shift = 0)
+    (hids : (qs.map (·.id)).Nodup) (hrid : (refs.map (·.id)).Nodup)
+    (hpt : Coma.Proofs.PTableOK c refs qs pt) :
+    ∃ d out, deriveTable c refs qs pt = .ok d ∧ execute cfg mode refs d.table qs it = .ok out :=
+  Coma.Proofs.seeded_execute_total cfg c mode hP refs qs pt it hres hb hrefs hqs hids hrid hpt
 
 /-- non-vacuity / the error branch: a window that starts after the last reference label -/
 example : refine {} { id := 1, length := 50000, positions := [1000, 9000] } { id := 2, length := 701, positions := [0, 700] } false 30000
